@@ -294,6 +294,8 @@ def call_real(block, n_paths, dtype, rng):
         fn = getattr(S, spec["fn"])
         if "sigma_fn" in params:
             params["sigma_fn"] = SIGMA_FNS[params["sigma_fn"]]
+        if block.get("engine"):
+            params["engine"] = make_engine(block["engine"])
         out = fn(n_paths=n_paths, n_steps=n_steps, dtype=dtype, **ikw, **params)
         if isinstance(out, torch.Tensor):
             res = {spec["fields"][0]: out}
@@ -307,6 +309,8 @@ def call_real(block, n_paths, dtype, rng):
     spec = SC.INSTRUMENTS[name]
     if "sigma_fn" in params:
         params["sigma_fn"] = SIGMA_FNS[params["sigma_fn"]]
+    if block.get("engine"):
+        params["engine"] = make_engine(block["engine"])
     inst = getattr(I, name)(dtype=dtype, **params)
     if rng is not None:
         rng.own_engine(inst)
@@ -316,6 +320,26 @@ def call_real(block, n_paths, dtype, rng):
         res["#vol"] = getattr(inst, spec["vol"][0])
         res["#var"] = getattr(inst, spec["vol"][1])
     return res
+
+
+SOBOL_SEED = 7
+ENGINES = ("antithetic", "sobol", "sobol_class")
+ENGINE_TARGETS = (("gen", "brownian"), ("gen", "geometric_brownian"), ("gen", "merton_jump"), ("gen", "kou_jump"),
+                  ("inst", "MertonJumpStock"), ("inst", "KouJumpStock"))     # everything that accepts engine=
+
+
+def make_engine(name):
+    """The documented alternatives to engine=torch.randn."""
+    import functools
+    import pfhedge.stochastic as S
+    from pfhedge.stochastic.engine import RandnSobolBoxMuller
+    if name == "antithetic":
+        return S.randn_antithetic
+    if name == "sobol":          # scrambled, fixed seed: deterministic and independent of torch's global generator
+        return functools.partial(S.randn_sobol_boxmuller, seed=SOBOL_SEED)
+    if name == "sobol_class":
+        return RandnSobolBoxMuller(scramble=True, seed=SOBOL_SEED)
+    raise HarnessError(f"engine {name}")
 
 
 def gen_of(block):
@@ -732,6 +756,79 @@ def series_shape(ctx, block):
     _series_family(ctx, block)
 
 
+def evaluate_engine(block):
+    """One call with a non-default engine (every inner torch draw of the engine owned and scripted) + float64
+    twin + one real-RNG pass; the same oracle.  Returns (problems, status, n_requests)."""
+    req = None if block["dtype"] is None else DT[block["dtype"]]
+    N = block["n_paths"]
+    tag = f"@engine_{block['engine']}"
+
+    def run(b, dtype, owned):
+        rng = OwnedRNG({s: _Scripted() for s in OwnedRNG.SITES}) if owned else None
+        try:
+            if owned:
+                with rng:
+                    return call_real(b, N, dtype, rng), None, len(rng.log)
+            torch.default_generator.manual_seed(4321 + block.get("seed", 0))
+            return call_real(b, N, dtype, None), None, 0
+        except HarnessError:
+            raise
+        except Exception as e:  # noqa: BLE001
+            return None, e, 0
+
+    def exc_class(e):
+        return (f"raises:{type(e).__name__}:n_paths_{'odd' if N % 2 else 'even'}"
+                + (":n_steps=1" if block["n_steps"] == 1 else "") + tag)
+
+    with Default(block["default"]):
+        eff = SC.expected_dtype(req, torch.get_default_dtype())
+        res, exc, nreq = run(block, req, True)
+        if exc is not None:
+            if SC.is_backend_unsupported(exc, eff):
+                return [], "unsupported", nreq
+            return [(exc_class(exc), f"{type(exc).__name__}: {str(exc)[:200]}", None, str(exc)[:200], "a series")], \
+                "raised", nreq
+        twin = None
+        if eff != torch.float64:
+            b64 = dict(block)
+            b64["dtype"] = "float64"
+            twin, _, _ = run(b64, torch.float64, True)
+        problems = [(p[0] + tag,) + tuple(p[1:]) for p in judge(block, res, N, eff, twin)]
+        real, rexc, _ = run(block, req, False)
+        if rexc is not None:
+            if not SC.is_backend_unsupported(rexc, eff):
+                problems.append((exc_class(rexc) + "@real_rng", f"real RNG: {type(rexc).__name__}: {str(rexc)[:200]}",
+                                 None, str(rexc)[:200], "a series"))
+        else:
+            seen = {p[0] for p in problems}
+            for p in judge(block, real, N, eff, None):
+                if eff in SC.HALF and p[0].split(":")[0] in ("nonfinite", "zero_without_underflow"):
+                    continue
+                if p[0] + tag not in seen:
+                    problems.append((p[0] + tag + "@real_rng",) + tuple(p[1:]))
+        return problems, "ok", nreq
+
+
+@family
+def series_engine(ctx, block):
+    block = dict(block)
+    block.setdefault("seed", ctx.seed)
+    problems, status, nreq = evaluate_engine(block)
+    ctx.tick(block["n_paths"], nontrivial=block["n_paths"] if block["n_paths"] % 2 else 0)
+    ctx.add("configurations", 1)
+    ctx.add("engine_configurations", 1)
+    ctx.add("rng_requests_answered", nreq)
+    if status == "unsupported":
+        ctx.add("unsupported_half_precision", 1)
+        return
+    if status == "ok":
+        ctx.add("traces_validated_against_impl", block["n_paths"])
+    site = site_of(block)
+    for cls, msg, row, obs, exp in problems:
+        ctx.violation(site, cls, f"{msg} [engine={block['engine']} n_paths={block['n_paths']} {_describe(block)}]",
+                      observed=obs, expected=exp, block=block)
+
+
 # ---------------------------------------------------------------------------------
 # re-simulation histories (bfs)
 # ---------------------------------------------------------------------------------
@@ -762,6 +859,8 @@ class _Scripted:
 
     def __call__(self, shape, dtype, req):
         site = req["site"]
+        if site == "randperm":          # a fixed permutation (the reversal)
+            return torch.arange(shape[0]).flip(0)
         if site in ("randn", "randn_like"):
             table = torch.tensor(NORMAL)
         elif site == "mvn":
@@ -1097,6 +1196,22 @@ def _blocks_shape(ctx):
                                            "n_paths": n_paths}
 
 
+def _blocks_engine(ctx):
+    dtypes = [None, "float64"] if ctx.quick else [None, "float16", "bfloat16", "float32", "float64"]
+    for kind, name in ENGINE_TARGETS:
+        gen = name if kind == "gen" else SC.INSTRUMENTS[name]["gen"]
+        inits = [("default", None)] + ([("tuple", INIT_VALUES[gen][0])] if ctx.thorough else [])
+        for engine in ENGINES:
+            for default in (("float32",) if ctx.quick else ("float32", "float64")):
+                for dtype in dtypes:
+                    for form, values in inits:
+                        for n_paths in (1, 2, 3, 5):
+                            for n_steps in (1, 2, 3):
+                                yield {"kind": kind, "name": name, "params": {}, "init": {"form": form, "values": values},
+                                       "dtype": dtype, "default": default, "n_steps": n_steps, "depth": 1,
+                                       "n_paths": n_paths, "engine": engine}
+
+
 def _blocks_resim(ctx):
     for name, spec in SC.INSTRUMENTS.items():
         gen = spec["gen"]
@@ -1140,11 +1255,13 @@ def run(ctx):
     tree_blocks = list(_blocks_tree(ctx))
     shape_blocks = list(_blocks_shape(ctx))
     resim_blocks = list(_blocks_resim(ctx))
+    engine_blocks = list(_blocks_engine(ctx))
+    ctx.alphabet("engines (generators and instruments that accept engine=)", list(ENGINES))
     if ctx.thorough:
         # interleave so that every chunk gets a similar mix of cheap and expensive generators
         work = []
         for name, blocks in (("series_tree", tree_blocks), ("series_shape", shape_blocks),
-                             ("resimulate", resim_blocks)):
+                             ("resimulate", resim_blocks), ("series_engine", engine_blocks)):
             k = 24
             work += [{"family": name, "blocks": blocks[i::k]} for i in range(k) if blocks[i::k]]
         ctx.run_parallel("batch", work, workers=min(8, int(os.environ.get("VERIF_WORKERS", "8"))))
@@ -1155,5 +1272,7 @@ def run(ctx):
             ctx.run("series_shape", b)
         for b in resim_blocks:
             ctx.run("resimulate", b)
+        for b in engine_blocks:
+            ctx.run("series_engine", b)
     if not ctx.samples:
         ctx.sample({"note": "no configuration completed normally (see violations)", "first_block": tree_blocks[0]})
